@@ -4,6 +4,7 @@
 
 mod builds;
 mod c01;
+mod c07;
 mod c08;
 mod c10;
 mod c11;
@@ -70,6 +71,7 @@ fn main() {
 		"C20" => dispatch!(builds::BuildCheck { id: "C20" }, args),
 		"transcript" => builds::transcript_main(&args[2..]),
 		"C15" => dispatch!(c15::C15, args),
+		"C07" => dispatch!(c07::C07, args),
 		"C09" => dispatch!(sched::SchedCheck { id: "C09" }, args),
 		"C13" => dispatch!(sched::SchedCheck { id: "C13" }, args),
 		"selfcheck-determinism" => {
